@@ -24,7 +24,7 @@ func init() {
 	register("C12", checkC12)
 	describe("C12", Meta{
 		Technique: "abstract interpretation of the allocator's server loop and of every client function (reply-exactly-once / request-answer pairing, path-sensitive in constant boolean flags), plus dominance of joins over exit requests on the launchers' SSA control-flow graphs",
-		Claim:     "Decides the structural termination clauses of C12: the variable allocator answers every request exactly once on every path that continues its loop (or panics/exits), every client pairs each request with one answer, launchers join a goroutine before telling the goroutine it still sends to to exit, and every compiler goroutine has an exit that is requested on all normal paths. Necessary conditions for 'compilation always terminates'; compiler correctness (emitted code vs. Go semantics) is not decided.",
+		Claim:     "Decides the structural termination clauses of C12: the variable allocator answers every request exactly once on every path that continues its loop (or panics/exits), every client pairs each request with one answer, launchers join a goroutine before telling the goroutine it still sends to to exit, and every compiler goroutine has an exit that is requested on all normal paths. A goroutine launched by a compiler goroutine that sends to another one's channel is joined by its parent before the parent reports completion (nested JOINORDER), and a helper that answers on the allocator's behalf sends the same number of answers on every path. Necessary conditions for 'compilation always terminates'; compiler correctness (emitted code vs. Go semantics) is not decided.",
 		Note:      "Channels are unbuffered (checked: make(chan T) without capacity at the launch sites). Server loops and their request/response channels are a table in the checker confirmed by reading (Var_assigner: req, resp); a server loop that disappears is reported, not skipped. Paths are distinguished at switch-case granularity.",
 		DesignRef: "DESIGN.md §2 C12",
 	})
@@ -406,10 +406,16 @@ func c12ReplyOnce(r *core.Run, prog *core.Program) {
 						evs = append(evs, pevent{d: +1, pos: x.Pos()})
 					}
 				case *ast.CallExpr:
-					// the response channel handed to a helper: not interpreted
-					for _, a := range x.Args {
+					// the response channel handed to a helper: use the helper's summary (the number of
+					// sends on that parameter, the same on every returning path)
+					for ai, a := range x.Args {
 						if chanObj(info, a) == respO {
-							undec = append(undec, prog.Pos(x.Pos())+": response channel passed to "+types.ExprString(x.Fun))
+							k, why := helperSendCount(prog, pk, x, ai, 0)
+							if why != "" {
+								undec = append(undec, prog.Pos(x.Pos())+": response channel passed to "+types.ExprString(x.Fun)+": "+why)
+							} else if k > 0 {
+								evs = append(evs, pevent{d: k, pos: x.Pos()})
+							}
 						}
 					}
 				}
@@ -423,6 +429,13 @@ func c12ReplyOnce(r *core.Run, prog *core.Program) {
 				if s, ok := m.(*ast.SendStmt); ok && chanObj(info, s.Chan) == respO {
 					found = true
 				}
+				if c, ok := m.(*ast.CallExpr); ok {
+					for _, a := range c.Args {
+						if chanObj(info, a) == respO {
+							found = true
+						}
+					}
+				}
 				return !found
 			})
 			return found
@@ -432,6 +445,13 @@ func c12ReplyOnce(r *core.Run, prog *core.Program) {
 		ast.Inspect(loop.Body, func(m ast.Node) bool {
 			if s, ok := m.(*ast.SendStmt); ok && chanObj(info, s.Chan) == respO {
 				nSends++
+			}
+			if c, ok := m.(*ast.CallExpr); ok {
+				for _, a := range c.Args {
+					if chanObj(info, a) == respO {
+						nSends++ // a helper that answers on behalf of the loop
+					}
+				}
 			}
 			return true
 		})
@@ -738,4 +758,101 @@ func countReqSends(pk *packages.Package, reqF *types.Var) int {
 		})
 	}
 	return n
+}
+
+// helperSendCount: the callee of `call` is a module function with a body; returns k when every
+// returning path of the callee sends exactly k times on its parameter number argIdx (paths that
+// end in panic/os.Exit are exempt). Otherwise a reason.
+func helperSendCount(prog *core.Program, pk *packages.Package, call *ast.CallExpr, argIdx int, depth int) (int, string) {
+	info := pk.TypesInfo
+	c := core.CalleeOf(info, call)
+	fn, ok := c.(*types.Func)
+	if !ok || fn.Pkg() == nil || depth > 2 {
+		return 0, "callee not resolved"
+	}
+	var fd *ast.FuncDecl
+	var fpk *packages.Package
+	for _, p2 := range prog.Pkgs {
+		if p2.Types != fn.Pkg() {
+			continue
+		}
+		core.FuncDecls(p2, func(_ *ast.File, d *ast.FuncDecl) {
+			if p2.TypesInfo.Defs[d.Name] == fn {
+				fd, fpk = d, p2
+			}
+		})
+	}
+	if fd == nil {
+		return 0, "callee has no body in the module"
+	}
+	finfo := fpk.TypesInfo
+	// parameter object number argIdx
+	var pobj types.Object
+	idx := 0
+	for _, f := range fd.Type.Params.List {
+		for _, n := range f.Names {
+			if idx == argIdx {
+				pobj = finfo.ObjectOf(n)
+			}
+			idx++
+		}
+	}
+	if pobj == nil {
+		return 0, "parameter not found"
+	}
+	why := ""
+	pi := &pinterp{info: finfo, noReturn: noReturnCall(finfo), noFlags: true}
+	pi.exhaustive = func(sw *ast.SwitchStmt) bool { return switchExhaustive(prog, fpk, sw) }
+	pi.events = func(n ast.Node) []pevent {
+		var evs []pevent
+		ast.Inspect(n, func(m ast.Node) bool {
+			switch x := m.(type) {
+			case *ast.FuncLit:
+				return false
+			case *ast.BlockStmt:
+				return m == n
+			case *ast.SendStmt:
+				if chanObj(finfo, x.Chan) == pobj {
+					evs = append(evs, pevent{d: +1, pos: x.Pos()})
+				}
+			case *ast.CallExpr:
+				for ai, a := range x.Args {
+					if chanObj(finfo, a) == pobj {
+						k, w := helperSendCount(prog, fpk, x, ai, depth+1)
+						if w != "" {
+							why = w
+						} else if k > 0 {
+							evs = append(evs, pevent{d: k, pos: x.Pos()})
+						}
+					}
+				}
+			}
+			return true
+		})
+		return evs
+	}
+	pi.containsEvent = func(ast.Node) bool { return false }
+	pi.onError = func(token.Pos, pstate, string) {}
+	pi.undecided = func(_ token.Pos, what string) { why = what }
+	in := pset{}
+	in.add(pstate{flags: map[types.Object]bool{}})
+	out := pi.block(fd.Body.List, in)
+	if why != "" {
+		return 0, why
+	}
+	ends := pset{}
+	ends.addAll(out.normal)
+	ends.addAll(out.ret)
+	k := -1
+	for _, st := range ends {
+		if k == -1 {
+			k = st.n
+		} else if k != st.n {
+			return 0, fmt.Sprintf("%s sends %d or %d times on the channel depending on the path", fn.Name(), k, st.n)
+		}
+	}
+	if k < 0 {
+		return 0, "" // never returns
+	}
+	return k, ""
 }
